@@ -641,6 +641,9 @@ func tail(s string, n int) string {
 
 func saveReplay(id string, seed uint64, tag, src string) string {
 	dir := filepath.Join(verifDir, "replays")
+	if repoDir != "/repo" {
+		dir = filepath.Join(buildDir, "replays-scratch")
+	}
 	os.MkdirAll(dir, 0o755)
 	dst := filepath.Join(dir, fmt.Sprintf("%s-seed%d-%s.json", id, seed, tag))
 	b, err := os.ReadFile(src)
@@ -796,8 +799,14 @@ func mergeEvidence(id, tier string, seed uint64, results []*workerResult, wall t
 		"violations": violations,
 	}
 	b, _ := json.MarshalIndent(evd, "", " ")
-	os.MkdirAll(filepath.Join(verifDir, "evidence"), 0o755)
-	if err := os.WriteFile(filepath.Join(verifDir, "evidence", id+".json"), b, 0o644); err != nil {
+	// Evidence describes runs against the repository itself; experiments that
+	// point the check at a scratch copy (VERIF_REPO) write theirs elsewhere.
+	evDir := filepath.Join(verifDir, "evidence")
+	if repoDir != "/repo" {
+		evDir = filepath.Join(buildDir, "evidence-scratch")
+	}
+	os.MkdirAll(evDir, 0o755)
+	if err := os.WriteFile(filepath.Join(evDir, id+".json"), b, 0o644); err != nil {
 		trouble("writing evidence: %v", err)
 	}
 	return m
